@@ -119,6 +119,13 @@ class PageFeatureProcessor:
             and document.rtf_page.page_source in ("last", "all")
         )
 
+        # The table on this page is closed by the last table-rendered component
+        # actually shown on it; a paragraph-style footnote/source closes nothing.
+        component_closes_table = bool(
+            (has_footnote_on_page and getattr(document.rtf_footnote, "as_table", True))
+            or (has_source_on_page and getattr(document.rtf_source, "as_table", False))
+        )
+
         # 4. Bottom Border Logic
         if not page.is_last_page:
             # Not last page: use BODY border_last
@@ -129,7 +136,7 @@ class PageFeatureProcessor:
                     else document.rtf_body.border_last
                 )
 
-                if not (has_footnote_on_page or has_source_on_page):
+                if not component_closes_table:
                     # Apply to last data row
                     for col_idx in range(page_df_width):
                         page_attrs = self._apply_border_to_cell(
@@ -157,7 +164,7 @@ class PageFeatureProcessor:
                 # The original code checked `page_info["end_row"] == total_rows - 1`.
                 # Here we rely on `is_last_page` flag which comes from strategy.
 
-                if not (footnote_as_table_on_last or source_as_table_on_last):
+                if not component_closes_table:
                     # Apply to last data row
                     for col_idx in range(page_df_width):
                         page_attrs = self._apply_border_to_cell(
